@@ -9,7 +9,7 @@ for d in $DIRS; do
     [ -f "$pd/patch.diff" ] || continue
     ids=$(python3 -c "import json,sys;m=json.load(open('$pd/meta.json'));print(' '.join(m.get('checks',[m.get('check','$d')])))" 2>/dev/null || echo $d)
     for id in $ids; do
-      out=$(harness/try_seed.sh "$pd/patch.diff" "$id" quick 2>&1 | grep -E "^(OK|VIOLATION)" | tail -1)
+      out=$(harness/try_seed_patch.sh "$pd/patch.diff" "$id" quick 2>&1 | grep -E "^(OK|VIOLATION)" | tail -1)
       echo "$pd -> $id :: $out"
     done
   done
